@@ -1074,7 +1074,8 @@ func (e *Exec) linkPure(st *State, ifaceT, concT types.Type, boxed Term, _ Value
 			continue
 		}
 		cct := e.cs.ByKey[fnKey(fn)]
-		if cct == nil || len(cct.Ensures) == 0 {
+		if cct == nil || len(cct.Ensures) == 0 || len(cct.Requires) > 0 {
+			// only unconditional getters are linked (no precondition obligations at a conversion)
 			continue
 		}
 		r, ok2 := e.modularCall(st, cct, fn.Signature, []Value{conc}, where, shortKey(fnKey(fn)))
